@@ -7,6 +7,8 @@ usage: seed_import.py <agent-worktree> [<agent-worktree> ...]
 import sys, os, json, shutil, subprocess, re
 V = os.path.dirname(os.path.dirname(os.path.abspath(__file__)))
 EVAL = "/tmp/wt/eval"
+# checks of other properties (or the thorough tier) that are also run for a seeded change, where its own property's quick check is not the one that sees it
+EXTRA = {"C06-m4": ["C12"], "C02-m4": ["C12"], "C03-m3": ["C13"], "C03-m4": ["C12"], "C20-m4": ["C08"], "C15-m4": ["C15@thorough"], "C16-m2": ["C08"], "C12-m2": ["C06"]}
 
 
 def sh(cmd, **kw):
@@ -49,8 +51,13 @@ def main():
                 print(mid, "patch does not apply to HEAD", r.stderr[:200])
                 continue
             env = dict(os.environ, VERIF_REPO=EVAL)
-            r = subprocess.run(["./check", prop, "--tier", "quick"], cwd=V, env=env, capture_output=True, text=True)
-            keys = re.findall(r"^  key: (.*)$", r.stdout, re.M)
+            runs = []
+            for spec in [prop] + EXTRA.get(mid, []):
+                chk, _, tier = spec.partition("@")
+                tier = tier or "quick"
+                r = subprocess.run(["./check", chk, "--tier", tier], cwd=V, env=env, capture_output=True, text=True)
+                keys = re.findall(r"^  key: (.*)$", r.stdout, re.M)
+                runs.append(dict(check=chk, tier=tier, exit_code=r.returncode, detected=(r.returncode == 1 and len(keys) > 0), violation_keys=keys[:8]))
             sh("git -C %s checkout -q -- ." % EVAL)
             try:
                 meta = json.load(open(os.path.join(out, "meta.json")))
@@ -58,10 +65,10 @@ def main():
                 meta = {}
             meta.update(dict(id=mid, breaks_property=prop, origin="written by a fresh sub-agent that saw only the property text and its own worktree",
                              confirmed=conf, confirmed_how="tools/mutant_confirm.sh in the sub-agent's scratch worktree: git apply, touch *.asm, make -j8 check (37 PASS), run_demo.sh with and without the patch",
-                             evaluated_with="VERIF_REPO=<scratch worktree with the patch> ./check %s --tier quick" % prop,
-                             check_exit_code=r.returncode, detected=(r.returncode == 1 and len(keys) > 0), violation_keys=keys[:12]))
+                             evaluated_with="VERIF_REPO=<scratch worktree with the patch> ./check <Cxx> --tier <tier> for each entry of runs",
+                             runs=runs, detected_by_own_quick_check=runs[0]["detected"], detected=any(x["detected"] for x in runs)))
             json.dump(meta, open(os.path.join(out, "meta.json"), "w"), indent=1)
-            print(mid, "detected" if meta["detected"] else "MISSED rc=%d" % r.returncode, keys[:2])
+            print(mid, " ".join("%s@%s=%s" % (x["check"], x["tier"], "DET" if x["detected"] else "miss(rc%d)" % x["exit_code"]) for x in runs))
 
 
 main()
